@@ -536,7 +536,7 @@ pub fn main(mode: Mode) {
                     std::process::exit(1);
                 }
             }
-            let outcome = vkit::run_prop(prop, vkit::workers_for(tier), tier.pick(600, 30_000), strategy, check);
+            let outcome = vkit::run_prop(prop, vkit::workers_for(tier), tier.pick(1_500, 40_000), strategy, check);
             // cross-process clause on the non-trivial histories collected above
             let outcome = match outcome {
                 Outcome::Held => {
